@@ -64,6 +64,12 @@ pub fn shard_evict(def: &E2Def, tier: &str, seed: u64, shard: u32, programs: u32
             k.memtable = if k.memtable == 256 { 64 * 1024 * 1024 } else { 256 };
             case.cfg.ks.push(k);
         }
+        // one more write into every keyspace, so that "every keyspace was flushed" really involves a
+        // flush of each (an empty memtable is not rotated, and journal maintenance only runs on
+        // rotation / after a flush); separate operations keep the prefix model exact
+        for i in [0u16, 16384, 32768, 49152, 65535] {
+            case.ops.push(Op::Insert { ks: i, k: B::L(b"~settle".to_vec()), v: B::L(vec![b's']) });
+        }
         case.ops.push(Op::SettleJournals);
         let fail = |out: &mut ShardOut, case: &Case, inj: Inject, msg: String| {
             out.failure = Some(FailureOut {
